@@ -22,11 +22,11 @@ import (
 )
 
 type airStats struct {
-	Ops, Scenarios, Mutations, Fatal, ErrorResults, OkResults, Panics int
-	Clones, CloneOps, Restarts, RestartPoints, SeedEntries            int
-	MutationHist                                                      map[string]int
-	OutcomeHist                                                       map[string]int
-	Monitors, Notes, Samples                                          []string
+	Ops, Scenarios, Mutations, Fatal, ErrorResults, OkResults, Panics       int
+	Clones, CloneOps, Restarts, RestartPoints, SeedEntries, ReplayedResults int
+	MutationHist                                                            map[string]int
+	OutcomeHist                                                             map[string]int
+	Monitors, Notes, Samples                                                []string
 }
 
 type airRun struct {
@@ -716,6 +716,34 @@ func (a *airRun) restartScenario(dir string, victim *vnode, mnemonic, round stri
 				return
 			}
 			a.emit("restart", obsLog())
+			// the replay has written the result file of every logged operation again ("republishes the same commitments …"):
+			// each is what a machine that never stopped published for that operation
+			for j := 0; j <= i; j++ {
+				lo := ops[j]
+				if lo.DKGIdentifier != round || lo.IsSigningState() {
+					continue
+				}
+				path := filepath.Join(mdir, "results", lo.Filename()+"_result.json")
+				rb, err := os.ReadFile(path)
+				if err != nil {
+					a.mon(fmt.Sprintf("C12 carries_on_identically (%s): after the replay that followed operation %d there is no result file for the logged operation %d (%s)", tag, i, j, lo.Type))
+					return
+				}
+				var res types.Operation
+				got := "fatal:result file is not an operation"
+				if json.Unmarshal(rb, &res) == nil {
+					k := "result"
+					if strings.Contains(string(res.Event), "error") || strings.Contains(string(res.Event), "failed") {
+						k = "error-result"
+					}
+					got = resultDigest(airOutcome{kind: k, result: &res})
+				}
+				a.st.ReplayedResults++
+				if j < len(ref) && !digestsEqual(got, ref[j]) {
+					a.mon(fmt.Sprintf("C12 carries_on_identically (%s): after the replay that followed operation %d the republished result of operation %d (%s) is %s, a machine that never stopped gives %s", tag, i, j, lo.Type, truncate(got, 160), truncate(ref[j], 160)))
+					return
+				}
+			}
 		}
 	}
 	if got, _ := keyringOf(m, round); got != refKey {
